@@ -2,5 +2,6 @@
 pub mod shapes;
 pub mod basic;
 pub mod multi;
+pub mod formats;
 pub use basic::*;
 pub use shapes::*;
